@@ -63,6 +63,55 @@ def rule_view_defs(ctx):
     ctx.instance("enabled_fields_data:members")
     if "field_idents.iter().map(|ident|quote!(self.#ident)).collect()" not in t:
         ctx.report("view:members", ctx.where(efd.file, efd.node), "`members` are no longer `self.#ident` for each enabled field identifier", {"text": t[:300]})
+    # VIEW-CONSISTENT: the per-field vectors of MultiFieldData are parallel arrays over the *enabled* fields
+    lit = next((x for x, _ in A.find(efd.block, "Expr::Struct") if A.path_last(x["path"]) == "MultiFieldData"), None)
+    if lit is None:
+        raise A.AnchorLost(f"{UTILS}::State::enabled_fields_data", "MultiFieldData literal")
+    lets = {}
+    for st, _ in A.find(efd.block, "Stmt::Local"):
+        ns = A.pat_idents(st["pat"])
+        if len(ns) == 1 and st.get("init"):
+            lets[ns[0]] = st["init"]["expr"]
+
+    def origin(e, depth=0):
+        """('enabled', view) | ('other', text) for the collection an expression is derived from 1:1"""
+        root, ops = A.chain(e)
+        for o in ops:
+            if o[0] == "m" and o[1] in ("filter", "filter_map", "skip", "take", "rev", "skip_while", "take_while", "flat_map", "chain", "zip"):
+                return ("other", f"uses `.{o[1]}(..)`")
+        k = A.kind(root)
+        if k == "Expr::Reference":
+            return origin(root["expr"], depth)
+        if k == "Expr::Path":
+            nm = A.path_str(root)
+            if nm == "self":
+                first = ops[-1] if ops else None
+                if first and first[0] == "m" and first[1].startswith("enabled_"):
+                    return ("enabled", first[1])
+                return ("other", A.render(e)[:80])
+            if nm in lets and depth < 6:
+                return origin(lets[nm], depth + 1)
+        return ("other", A.render(e)[:80])
+
+    parallel = ("fields", "field_types", "field_indexes", "members", "infos", "field_idents", "casted_traits")
+    seen = set()
+    for fv in lit["fields"]:
+        nm = fv["member"]["0"]["sym"] if A.kind(fv["member"]) == "Member::Named" else None
+        if nm not in parallel:
+            continue
+        seen.add(nm)
+        o = origin(fv["expr"])
+        ctx.instance(f"enabled_fields_data:{nm}", sample={"vector": nm, "derived_from": o})
+        if o[0] != "enabled":
+            ctx.report(
+                f"view:parallel:{nm}",
+                ctx.where(efd.file, fv["expr"]),
+                f"`MultiFieldData::{nm}` is built from `{o[1]}` and not 1:1 from one of the `enabled_*` views: it is no longer parallel to `fields` - consumers that zip / index it by enabled position "
+                "(Error reads each field's `source` / `backtrace` attributes from `infos[i]`) look at a neighbour's entry as soon as an ignored field precedes",
+                {},
+            )
+    if set(parallel) - seen:
+        raise A.AnchorLost(f"{UTILS}::State::enabled_fields_data", f"per-field vectors missing in the literal: {sorted(set(parallel) - seen)}")
     asf = A.get_fn(ctx.files, UTILS, "State::assert_single_enabled_field")
     t = A.fn_text(asf)
     ctx.instance("assert_single_enabled_field")
